@@ -93,10 +93,18 @@ func run(pr *rules.PropertyRules, tier, only string, writeEv bool) (code int) {
 	}
 	configs := [][]string{{"GOOS=linux", "GOARCH=amd64"}}
 	if tier == "thorough" {
+		// the remaining build-tagged sources, in the two other configurations in which the
+		// module builds offline (linux/386 and linux/arm do not: netpoll v0.6.4 and sonic do
+		// not compile there): uri_windows.go, route/default_windows.go,
+		// dialer/default_windows.go (GOOS=windows; netpoll excluded); bytesconv_32.go,
+		// decoder/gjson_required.go, common/json/std.go (windows/386 with -tags=stdjson).
+		if !pr.SkipRoot {
+			configs = append(configs, []string{"GOOS=windows", "GOARCH=amd64"}, []string{"GOOS=windows", "GOARCH=386", "-tags=stdjson"})
+		}
 		configs = append(configs, pr.ExtraConfigs...)
 	}
 	for _, cf := range configs {
-		name := strings.NewReplacer("GOOS=", "", "GOARCH=", "").Replace(strings.Join(cf, "/"))
+		name := strings.NewReplacer("GOOS=", "", "GOARCH=", "", "-tags=", "").Replace(strings.Join(cf, "/"))
 		rep.Configs = append(rep.Configs, name)
 		var w *core.World
 		if !pr.SkipRoot {
